@@ -77,4 +77,31 @@ def blockSum (F : Arr3) (fz fy fx z y x : Nat) : Int :=
   ((List.range fz).map fun dz => ((List.range fy).map fun dy => ((List.range fx).map fun dx =>
     F (z * fz + dz) (y * fy + dy) (x * fx + dx)).sum).sum).sum
 
+/-! ### selection: `downscaling.get_downscaler(method, info, options)` -/
+
+/-- the downscaler object that is built, with the option that reaches it -/
+inductive Sel where
+  | average (outside : Option Int)
+  | majority
+  | stride
+  deriving Repr, DecidableEq
+
+/-- `get_downscaler`: `auto` is resolved by the info's type (`image` → averaging, anything else → striding) and the
+    SAME options are handed on; an unknown name is `NotImplementedError` (`none`). `infoType` is only looked at
+    for `auto` (the commands always pass an info then). -/
+def getDownscaler (method infoType : String) (outside : Option Int) : Option Sel :=
+  if method = "auto" then
+    (if infoType = "image" then some (.average outside) else some .stride)
+  else if method = "average" then some (.average outside)
+  else if method = "majority" then some .majority
+  else if method = "stride" then some .stride
+  else none
+
+/-- the output voxel the selected downscaler computes (`none` = the value would wrap, see `average`) -/
+def Sel.voxel (s : Sel) (t : Conv.Ty) (f : Arr3) (e : Ext) (fz fy fx z y x : Nat) : Option Int :=
+  match s with
+  | .average o => Down.average t f e o fz fy fx z y x
+  | .majority => some (Down.majority f e fz fy fx z y x)
+  | .stride => some (Down.stride f fz fy fx z y x)
+
 end NgVerif.Down
